@@ -4,7 +4,7 @@ from props import chan_check
 from props import c06_points
 
 THEOREMS = [
-    "C06_store_exact", "C06_store_stable", "C06_producer_accepted",
+    "C06_store_exact", "C06_store_stable", "C06_unreceived_unknown", "C06_producer_accepted",
     "C06_reject_inconsistent", "C06_accept_criterion", "C06_leaf_unchecked",
     "C06_bounded", "C06_codec_roundtrip",
     # own chain: slot -> index discipline (Shachain/SlotModel.v), see props/c06_points.py
@@ -138,7 +138,10 @@ def predicate(case):
             v, res = o[1], o[2]
             if v <= START and (START - v) in known and v >= base and res != known[START - v]:
                 fails.append("lookup %d returned %s, accepted secret was %s" % (v, res, known[START - v]))
-            if v >= k and res is not None and clean:
+            # C06_unreceived_unknown: for ANY accepted insert sequence (garbage leaves included,
+            # kind corrupt) nothing is answered for k <= v <= 2^48-1; only a deliberately damaged
+            # loaded store (kind tamper) is outside the theorem's reachable states
+            if v >= k and res is not None and (clean or (case["kind"] != "tamper" and v <= START)):
                 fails.append("lookup %d beyond the %d received secrets succeeded" % (v, k))
             if clean and v < k and v in prod and res != prod[v]:
                 fails.append("lookup %d differs from producer" % v)
